@@ -238,6 +238,26 @@ impl<T> HostMatcher<T> {
 }
 //@@ unrename IpMatcher
 
+// ================================================================ scheme layer (C01)
+//@@ rename HostMatcher SubHost
+//@@ item src/router/request_matcher/scheme.rs :: struct SchemeMatcher
+//@@ unrename HostMatcher
+pub open spec fn scheme_bucket<T>(m: Map<String, SubHost<T>>, s: Seq<char>, request: Request) -> Multiset<RouteRef<T>> {
+    if exists|key: String| key@ == s && m.contains_key(key) { let key = choose|key: String| key@ == s && m.contains_key(key); m[key].answer(request) } else { Multiset::empty() }
+}
+// statement: rules for any scheme, plus the rules bound to exactly the request's scheme (each scheme bucket owns its host layer,
+// which is what scopes the any-host policy per scheme)
+pub open spec fn scheme_answer<T>(m: SchemeMatcher<T>, request: Request) -> Multiset<RouteRef<T>> {
+    m.any_scheme.answer(request).add(match req_scheme(request) { Some(s) => scheme_bucket(m.schemes@, s, request), None => Multiset::empty() })
+}
+impl<T> SchemeMatcher<T> {
+    //@@ fn src/router/request_matcher/scheme.rs :: impl <T>SchemeMatcher<T> / fn match_request -> r
+    //@| ensures ms_of(r@) == scheme_answer(*self, *request),
+    //@| entry broadcast use vstd::std_specs::hash::group_hash_axioms; broadcast use axiom_string_key_model; broadcast use axiom_borrow_str_contains; broadcast use axiom_borrow_str_maps;
+    //@|     proof { axiom_string_ext(); let a = self.any_scheme.answer(*request); assert(a.add(Multiset::empty()) =~= a); }
+    //@| outline `routes.extend(matcher.match_request(request));` => `ext_routes(&mut routes, matcher.match_request(request));`
+}
+
 // ================================================================ ip layer (C01)
 #[verifier::external_body] pub broadcast proof fn axiom_routeip_key_model2() ensures #[trigger] obeys_key_model::<RouteIp>() {}
 //@@ rename MethodMatcher SubMethod
@@ -300,6 +320,85 @@ impl<T> IpMatcher<T> {
     //@|     }
     //@| }
     //@| outline `routes.extend(matcher.match_request(request));` => `ext_routes(&mut routes, matcher.match_request(request));`
+}
+
+// ================================================================ method layer (C01)
+#[verifier::external_body] pub broadcast proof fn axiom_vecstring_key_model() ensures #[trigger] obeys_key_model::<Vec<String>>() {}
+//@@ rename HeaderMatcher SubHeader
+//@@ item src/router/request_matcher/method.rs :: struct MethodMatcher
+//@@ unrename HeaderMatcher
+pub open spec fn list_has(ms: Seq<String>, m: Seq<char>) -> bool { exists|i: int| 0 <= i < ms.len() && #[trigger] ms[i]@ == m }
+// R8 outlined expression: `methods.contains(&request.method().into())` (&str -> String conversion through Into has no Verus spec);
+// assumed: membership of the method name in the list
+#[verifier::external_body]
+pub fn outl_methods_contains(methods: &Vec<String>, method: &str) -> (r: bool) ensures r == list_has(methods@, method@)
+{ /* verbatim: methods.contains(&request.method().into()) */ methods.contains(&method.into()) }
+pub open spec fn method_bucket<T>(m: Map<String, SubHeader<T>>, s: Seq<char>, request: Request) -> Multiset<RouteRef<T>> {
+    if exists|key: String| key@ == s && m.contains_key(key) { let key = choose|key: String| key@ == s && m.contains_key(key); m[key].answer(request) } else { Multiset::empty() }
+}
+pub type ExclItem<'a, T> = (&'a Vec<String>, &'a SubHeader<T>);
+pub open spec fn excl_contrib<T>(rem: Seq<ExclItem<T>>, n: int, request: Request, x: RouteRef<T>) -> bool {
+    exists|i: int| 0 <= i < n && !list_has((*#[trigger] rem[i].0)@, req_method(request)) && (*rem[i].1).answer(request).count(x) > 0
+}
+impl<T> MethodMatcher<T> {
+    // statement: rules for any method, rules listing the request's method, and rules EXCLUDING a list that does not contain it
+    //@@ fn src/router/request_matcher/method.rs :: impl <T>MethodMatcher<T> / fn match_request -> r
+    //@| opt r5:0
+    //@| opt r6:0
+    //@| ensures forall|x: RouteRef<T>| r@.contains(x) <==> (self.any_method.answer(*request).count(x) > 0
+    //@|     || method_bucket(self.methods@, req_method(*request), *request).count(x) > 0
+    //@|     || exists|ms: Vec<String>| self.exclude_methods@.contains_key(ms) && !list_has(ms@, req_method(*request)) && #[trigger] self.exclude_methods@[ms].answer(*request).count(x) > 0),
+    //@| attr #[verifier::loop_isolation(false)]
+    //@| entry broadcast use vstd::seq_lib::group_to_multiset_ensures; broadcast use vstd::std_specs::hash::group_hash_axioms; broadcast use axiom_string_key_model; broadcast use axiom_vecstring_key_model; broadcast use axiom_borrow_str_contains; broadcast use axiom_borrow_str_maps;
+    //@|     proof { axiom_string_ext(); }
+    //@| loopbefore 0: let ghost any0 = routes@; let ghost gm = self.exclude_methods@;
+    //@|     proof { assert(forall|x: RouteRef<T>| any0.contains(x) <==> (self.any_method.answer(*request).count(x) > 0 || method_bucket(self.methods@, req_method(*request), *request).count(x) > 0)); }
+    //@| loop 0: invariant 0 <= vf_it0_idx <= vf_it0_rem0.len(), vf_it0.remaining() == vf_it0_rem0.skip(vf_it0_idx), vf_it0_rem0.len() == gm.len(),
+    //@|         forall|x: RouteRef<T>| #[trigger] routes@.contains(x) <==> (any0.contains(x) || excl_contrib(vf_it0_rem0, vf_it0_idx, *request, x)),
+    //@|     decreases gm.len() - vf_it0_idx,
+    //@| loophead 0: let ghost r0 = routes@; let ghost k = vf_it0_idx - 1; let ghost rem = vf_it0_rem0;
+    //@|     proof { assert(methods == rem[k].0 && matcher == rem[k].1); }
+    //@| looptail 0: proof {
+    //@|     let other = routes@.subrange(r0.len() as int, routes@.len() as int);
+    //@|     let cond = !list_has(methods@, req_method(*request));
+    //@|     assert forall|x: RouteRef<T>| #[trigger] routes@.contains(x) <==> (any0.contains(x) || excl_contrib(rem, k + 1, *request, x)) by {
+    //@|         if cond {
+    //@|             assert(routes@ =~= r0 + other);
+    //@|             lemma_ms_add(r0, other);
+    //@|             assert(ms_of(routes@).count(x) == ms_of(r0).count(x) + ms_of(other).count(x));
+    //@|             assert(ms_of(other).count(x) == matcher.answer(*request).count(x));
+    //@|         }
+    //@|         if excl_contrib(rem, k + 1, *request, x) {
+    //@|             let i = choose|i: int| 0 <= i < k + 1 && !list_has((*#[trigger] rem[i].0)@, req_method(*request)) && (*rem[i].1).answer(*request).count(x) > 0;
+    //@|             if i < k { assert(excl_contrib(rem, k, *request, x)); }
+    //@|         }
+    //@|         if excl_contrib(rem, k, *request, x) {
+    //@|             let i = choose|i: int| 0 <= i < k && !list_has((*#[trigger] rem[i].0)@, req_method(*request)) && (*rem[i].1).answer(*request).count(x) > 0;
+    //@|             assert(!list_has((*rem[i].0)@, req_method(*request)));
+    //@|         }
+    //@|         if cond && matcher.answer(*request).count(x) > 0 { assert(!list_has((*rem[k].0)@, req_method(*request))); }
+    //@|     }
+    //@| }
+    //@| loopend 0: proof {
+    //@|     let rem = vf_it0_rem0;
+    //@|     assert forall|x: RouteRef<T>| excl_contrib(rem, rem.len() as int, *request, x) <==> (exists|ms: Vec<String>| gm.contains_key(ms) && !list_has(ms@, req_method(*request)) && #[trigger] gm[ms].answer(*request).count(x) > 0) by {
+    //@|         if excl_contrib(rem, rem.len() as int, *request, x) {
+    //@|             let i = choose|i: int| 0 <= i < rem.len() && !list_has((*#[trigger] rem[i].0)@, req_method(*request)) && (*rem[i].1).answer(*request).count(x) > 0;
+    //@|             let ms = *rem[i].0;
+    //@|             assert(gm.contains_key(ms) && gm[ms] == *rem[i].1);
+    //@|             assert(gm[ms].answer(*request).count(x) > 0);
+    //@|         }
+    //@|         if exists|ms: Vec<String>| gm.contains_key(ms) && !list_has(ms@, req_method(*request)) && #[trigger] gm[ms].answer(*request).count(x) > 0 {
+    //@|             let ms = choose|ms: Vec<String>| gm.contains_key(ms) && !list_has(ms@, req_method(*request)) && #[trigger] gm[ms].answer(*request).count(x) > 0;
+    //@|             let i = choose|i: int| 0 <= i < rem.len() && *rem[i].0 == ms;
+    //@|             assert(gm[*rem[i].0] == *rem[i].1);
+    //@|             assert(!list_has((*rem[i].0)@, req_method(*request)));
+    //@|         }
+    //@|     }
+    //@| }
+    //@| outline `methods.contains(&request.method().into())` => `outl_methods_contains(methods, request.method())`
+    //@| outline `routes.extend(matcher.match_request(request));`#0 => `ext_routes(&mut routes, matcher.match_request(request));`
+    //@| outline `routes.extend(matcher.match_request(request));`#1 => `ext_routes(&mut routes, matcher.match_request(request));`
 }
 
 // ================================================================ header layer (C01)
